@@ -414,10 +414,12 @@ class XTyper:
                 if len(args) == 2 and args[0][0] == "Seq" and args[1][0] == "Seq":
                     a, b = args
                     # zip(xs, range(len(xs))) numbers xs by its own positions, like enumerate(xs) the other way round
-                    if b[1] == "POS" and b[2] == "POS" and b[3] and b[4] is not None and b[4] == a[4] and a[1] != "POS":
-                        return ("Pairs", a[2], a[1], a[3], a[4])
-                    if a[1] == "POS" and a[2] == "POS" and a[3] and a[4] is not None and a[4] == b[4] and b[1] != "POS":
-                        return ("Pairs", b[1], b[2], b[3], b[4])
+                    # (the k-th pair holds k whatever the length of the range is; a range of another length leaves the number of
+                    # pairs open, which is a question of totality, not of what the numbers mean)
+                    if b[1] == "POS" and b[2] == "POS" and b[3] and a[1] != "POS":
+                        return ("Pairs", a[2], a[1], a[3], a[4] if b[4] is not None and b[4] == a[4] else None)
+                    if a[1] == "POS" and a[2] == "POS" and a[3] and b[1] != "POS":
+                        return ("Pairs", b[1], b[2], b[3], b[4] if a[4] is not None and a[4] == b[4] else None)
                     if a[1] != b[1] and "POS" not in (a[1], b[1]):
                         if self.strict:
                             raise XViolation(e, f"zip pairs a sequence indexed by {fmt_space(a[1])} with one indexed by {fmt_space(b[1])}")
